@@ -32,6 +32,7 @@ func (m *RWMutex) Unlock()       { m.VUnlock(-1) }
 func (m *RWMutex) RLock()        { m.VRLock(-1) }
 func (m *RWMutex) RUnlock()      { m.VRUnlock(-1) }
 func (m *RWMutex) TryLock() bool { return m.VTryLock(-1) }
+func (m *RWMutex) TryRLock() bool { return m.VTryRLock(-1) }
 
 func (m *RWMutex) VLock(site int) {
 	if rt.Dead() {
@@ -51,6 +52,19 @@ func (m *RWMutex) VTryLock(site int) bool {
 		m.w = true
 	}
 	rt.Emit(site, unsafe.Pointer(m), "mutex", "trylock", "", rt.Btoa(ok))
+	return ok
+}
+func (m *RWMutex) VTryRLock(site int) bool {
+	if rt.Dead() {
+		return true
+	}
+	rt.Point("mu.tryrlock")
+	// (a real RWMutex also refuses while a writer is waiting; writer preference is not modelled)
+	ok := !m.w
+	if ok {
+		m.r++
+	}
+	rt.Emit(site, unsafe.Pointer(m), "mutex", "tryrlock", "", rt.Btoa(ok))
 	return ok
 }
 func (m *RWMutex) VUnlock(site int) {
